@@ -16,7 +16,8 @@ fn fail(v: &mut Vec<Value>, x: Value) {
     }
 }
 
-pub fn run(_tier: &str) -> Report {
+pub fn run(tier: &str) -> Report {
+    let depth = if tier == "thorough" { 5 } else { 4 };
     let rooms = ["!r:b.org", "!r/x:b.org", "!r%41:b.org", "!r?q#f:b.org", "!r\u{e9}:b.org", "!r x:b.org", "!%2F:b.org", "!a+b:b.org", "!!r:b.org", "!$o:b.org", "!#@!$:b.org"];
     let aliases = ["#a:b.org", "#a/b:b.org", "#a%41:b.org", "#a?#:b.org", "#\u{e9}\u{1F600}:b.org", "#a&b=c:b.org", "##rust:b.org", "#@a:b.org", "#!$#:b.org"];
     let users = ["@u:b.org", "@u/v:b.org", "@u%2f:b.org", "@u=+.-_:b.org", "@!bang:b.org", "@@u:b.org", "@#$:b.org"];
@@ -60,7 +61,7 @@ pub fn run(_tier: &str) -> Report {
     let frags = ["/", "!a:b", "$e", "#r:b", "%", "%2F", "?", "via=b", "@u:b"];
     let mut texts: Vec<String> = vec![String::new()];
     let mut layer: Vec<String> = vec![String::new()];
-    for _ in 0..4 {
+    for _ in 0..depth {
         let mut next = vec![];
         for t in &layer {
             for f in frags {
@@ -112,7 +113,7 @@ pub fn run(_tier: &str) -> Report {
         }
     }
     Report {
-        bound: format!("{} identifiers x 2 URI schemes x 5 via lists x action x {} event ids; {} malformed texts (fragments alphabet of 9, length <= 4) x 4 bases; every byte-prefix of 4 base URLs x 3 paddings x 7 ASCII / non-ASCII tails", rooms.len() + aliases.len() + users.len(), events.len(), texts.len()),
+        bound: format!("{} identifiers x 2 URI schemes x 5 via lists x action x {} event ids; {} malformed texts (fragments alphabet of 9, length <= 4; thorough tier: <= 5) x 4 bases; every byte-prefix of 4 base URLs x 3 paddings x 7 ASCII / non-ASCII tails", rooms.len() + aliases.len() + users.len(), events.len(), texts.len()),
         cases: cases_n,
         obligations: vec![
             ("format_then_parse_yields_the_same_value", cases_n, f_rt),
